@@ -18,8 +18,12 @@ CLAIMED={
  "C06":("exploration","Byzantine peer with generated signer/signature lists against the real Gnosis / service validator chains and the access node; verdict vs the statement's predicate.","§3 C06"),
  "C15":("exploration","Seeded search over block trees, head sequences (forks <= assumed reorg depth), RPC/DB faults and syncer crashes; oracle at every commit that moves the sync position.","§3 C15"),
  "C16":("exploration","One generated chain synced under three batchings by the real MultiEventSyncer; fired rows vs a canonical-chain reference.","§3 C16"),
+ "C02":("exploration","Seeded search over block histories, eon states, restarts and faults through the real per-block processing; safety oracle on the trigger channel and on published share messages.","§3 C02"),
+ "C19":("exploration","Seeded search over queues, slot triggers, restarts and message interleavings across 2-3 real Gnosis keyper stacks; identity selection vs reference, pointer arithmetic at quiescence.","§3 C19"),
 }
 NOTES={
+ "C02":"safety only (as stated); keyper sets have increasing activation blocks; simeth/pgsim fidelity",
+ "C19":"beacon API stubbed (proposer always registered); sequencer contract enforces minimum gas",
  "C15":"canonical chain fixed during one Sync; contracts emit a key once per chain and nothing before the sync start block; pgsim/simeth fidelity",
  "C16":"fault-free; simeth eth_getLogs semantics; reference matcher ref.TrigDef",
  "C05":"process-wide allocation metering with a generous constant; pgsim fidelity",
